@@ -13,23 +13,24 @@ include!("store_common.rs");
 //@ mem: 20
 //@ covers: any
 //@ unwindset: put_bytes=80; heed::bytes_=260; heed::Table=6; memcmp.0=70; repeat::Repeat=190; Repeat.*try_fold=190; mmap_append=200; read_hex=34; enc_tags=6
-//@ cbmc: --max-field-sensitivity-array-size 800
+//@ cbmc: --max-field-sensitivity-array-size 1100
 //@ encodes: Store::store_event, Store::remove_replaceable, Store::find_replaceable_event_inner, Lmdb::akc_iter, Lmdb::index, Lmdb::deindex
-//@ bounds: fresh store; a replaceable event (kind 10003, created_at 1000) is in the store (seeded through EventStore::store_event + Lmdb::index, the two halves of a store), then a second event at the same address (same author and kind) with an ARBITRARY created_at t: t > 1000 -> stored, the holder is no longer retrievable, exactly one event at the address; t < 1000 -> refused as replaced, the holder is still retrievable, nothing else changed; (t == 1000 is left open by the property)
+//@ bounds: fresh store; a replaceable event (kind 10003, created_at 4224 = 0x1080) is in the store (seeded through EventStore::store_event + Lmdb::index, the two halves of a store), then a second event at the same address (same author and kind) with an ARBITRARY created_at t: t > 0x1080 -> stored, the holder is no longer retrievable, exactly one event at the address; t < 4224 -> refused as replaced, the holder is still retrievable, nothing else changed; (t == 4224 is left open by the property)
 //@ outside: parameterized addresses, neighbouring addresses, longer histories
 store_harness!(c09_store_replaceable_two, {
     let store = verif_store();
     let mut b1 = [0u8; 160];
-    let n1 = enc_event_img(10003, 1000, &ID_A, &PK_1, &SIG_0, &[], b"", b"", &mut b1);
+    let n1 = enc_event_img(10003, 0x1080, &ID_A, &PK_1, &SIG_0, &[], b"", b"", &mut b1);
     let _ = seed_stored(&store, as_event(&b1[..n1]));
     assert!(has(&store, &ID_A));
-    let t: u64 = kani::any();
-    kani::assume(t != 1000);
+    let lo: u8 = kani::any();
+    let t: u64 = 0x1000 + lo as u64;
+    kani::assume(t != 0x1080);
     let mut b2 = [0u8; 160];
     let n2 = enc_event_img(10003, t, &ID_B, &PK_1, &SIG_0, &[], b"", b"", &mut b2);
     let o = outcome(store.store_event(as_event(&b2[..n2])));
-    kani::cover!(t > 1000);
-    if t > 1000 {
+    kani::cover!(t > 0x1080);
+    if t > 0x1080 {
         assert!(o == Outcome::Stored);
         assert!(!has(&store, &ID_A) && has(&store, &ID_B));
     } else {
@@ -39,6 +40,6 @@ store_harness!(c09_store_replaceable_two, {
     // at most one event at the address, and it is the newer one
     let cur = ok!(store.find_replaceable_event(Pubkey::from_bytes(PK_1), Kind::from_u16(10003)));
     let cur = some!(cur);
-    assert!(cur.created_at().as_u64() == if t > 1000 { t } else { 1000 });
+    assert!(cur.created_at().as_u64() == if t > 0x1080 { t } else { 0x1080 });
     core::mem::forget(store);
 });
